@@ -121,6 +121,11 @@ func (fan *HwMonFan) AttachFanRpmCurveData(curveData *map[int]float64) (err erro
 
 	fan.FanCurveData = curveData
 
+	if fan.Config.StartPwm == nil {
+		// forget a start PWM derived from previously attached data,
+		// otherwise it would be mistaken for a user defined value
+		fan.StartPwm = nil
+	}
 	startPwm, maxPwm := ComputePwmBoundaries(fan)
 	fan.SetStartPwm(startPwm, false)
 	fan.SetMaxPwm(maxPwm, false)
